@@ -116,7 +116,38 @@ class Context:
 
         self._locked('syn', produce, lambda: os.path.exists(out) and os.path.getsize(out) > 0)
         from synlib import Syn
-        self._syn = Syn(json.load(open(out)), self.repo)
+        sj = json.load(open(out))
+        # functions that were only renamed keep their pinned name in the syntax trees too (see mirlib.detect_renames)
+        ren = {}
+        F = self.facts()
+        pinned_simple = set()
+        from mirlib import load_pinned
+        pj = load_pinned() or {}
+        for crate in pj:
+            pinned_simple.update(p_.split('::')[-1] for p_ in pj[crate])
+        for (crate, newp), oldp in getattr(F, 'renames', {}).items():
+            ns, os_ = newp.split('::')[-1], oldp.split('::')[-1]
+            if ns not in pinned_simple:
+                ren[ns] = os_
+        if ren:
+            def walk(x):
+                if isinstance(x, list):
+                    for y in x:
+                        walk(y)
+                elif isinstance(x, dict):
+                    if x.get('k') == 'fn' and x.get('name') in ren:
+                        x['name'] = ren[x['name']]
+                    elif x.get('k') == 'mcall' and x.get('method') in ren:
+                        x['method'] = ren[x['method']]
+                    elif x.get('k') == 'path' and isinstance(x.get('path'), list) and x['path'] and x['path'][-1] in ren:
+                        if 'text' in x and isinstance(x['text'], str):
+                            x['text'] = x['text'].replace(x['path'][-1], ren[x['path'][-1]])
+                        x['path'][-1] = ren[x['path'][-1]]
+                    for y in x.values():
+                        walk(y)
+            walk(sj)
+        self._syn = Syn(sj, self.repo)
+        self.syn_renames = ren
         return self._syn
 
     def readme(self):
@@ -153,8 +184,10 @@ class Report:
     def rule(self, rid, text):
         self.rules[rid] = text
 
-    def ob(self, ok, rule, fn, construct, text, loc=None, detail=None, nontrivial=True):
-        key = '%s|%s|%s' % (rule, fn, construct)
+    def ob(self, ok, rule, fn, construct, text, loc=None, detail=None, nontrivial=True, key=None):
+        # `key` (optional): the part of the construct that identifies the finding when the full construct text (printed for
+        # diagnosis) contains details a behaviour-preserving edit may change
+        key = '%s|%s|%s' % (rule, fn, key if key is not None else construct)
         self.obs.append({'ok': bool(ok), 'rule': rule, 'key': key, 'fn': fn, 'construct': construct,
                          'text': text, 'loc': loc, 'detail': detail, 'nontrivial': nontrivial})
         if fn:
@@ -164,8 +197,8 @@ class Report:
     def good(self, rule, fn, construct, text, loc=None, nontrivial=True):
         return self.ob(True, rule, fn, construct, text, loc, None, nontrivial)
 
-    def bad(self, rule, fn, construct, text, loc=None, detail=None):
-        return self.ob(False, rule, fn, construct, text, loc, detail)
+    def bad(self, rule, fn, construct, text, loc=None, detail=None, key=None):
+        return self.ob(False, rule, fn, construct, text, loc, detail, key=key)
 
     def count(self, name, n):
         self.counts[name] = self.counts.get(name, 0) + n
